@@ -219,6 +219,9 @@ func scenarios() []scenario {
 		// the reader never yields a prime: only the cancellation can end the call (producers must look at
 		// the context between draws; a spinning producer must not keep the call from returning)
 		// every producer's read fails: each sends its error; only the first is consumed
+		// one transient failure while the other producers are healthy
+		scenario{"conc=2,primes=2,reader=E then P-forever", 2, 2, "E", false},
+		scenario{"conc=3,primes=1,reader=PPE then P-forever", 3, 1, "PPE", false},
 		scenario{"conc=3,primes=1,reader=E-forever", 3, 1, "E*", false},
 		scenario{"conc=3,primes=2,reader=P then E-forever", 3, 2, "PE*", false},
 		scenario{"conc=1,primes=1,reader=N-forever,cancel", 1, 1, "N*", true},
